@@ -268,6 +268,15 @@ def sequence(rec, rng, cid, scratch):
         if key in stored and rng.random() < .5:
             op = "same-again"
             variant = stored[key][0]
+            if rng.random() < .5:
+                # another user confirms rating and comment: only the name
+                # (or only one of the fields) changes
+                old_user = stored[key][1]
+                which = int(rng.integers(3))
+                user = (user[0] if which == 0 else old_user[0],
+                        "user%d" % rng.integers(3, 9) if which == 1
+                        else old_user[1],
+                        user[2] if which == 2 else old_user[2])
         elif key in stored:
             op = "different-fit"
             variant = stored[key][0] + int(rng.integers(1, 8))
